@@ -31,6 +31,26 @@ class Unsupported(Exception):
     pass
 
 
+MEMBERS = {
+    "pipeline:quantifiers+conditional-effects": ["quantifiers-remover", "conditional-effects-remover"],
+    "pipeline:grounder+negative-conditions": ["grounder", "negative-conditions-remover"],
+    "pipeline:usertype+quantifiers+disjunctive": ["usertype-fluents-remover", "quantifiers-remover", "disjunctive-conditions-remover"],
+}
+
+# rejections the compilers document (message of the exception they raise on purpose)
+DOCUMENTED_REJECTIONS = [
+    ("UPProblemDefinitionError", "PROBLEM NOT SOLVABLE"),           # TrajectoryConstraintsRemover: constraint violated initially
+    ("UPUsageError", "This compiler cannot handle this expression"),  # TrajectoryConstraintsRemover: non-propositional body
+    ("UPProblemDefinitionError", "could not be removed without changing the problem"),  # ConditionalEffectsRemover (timed)
+    ("UPUsageError", "No objects present for the usertype"),       # NegativeConditionsRemover
+]
+
+
+def documented_rejection(exc):
+    n, m = type(exc).__name__, str(exc)
+    return any(n == dn and dm in m for dn, dm in DOCUMENTED_REJECTIONS)
+
+
 # ---------------------------------------------------------------------------------------------- compiler table
 def compiler_specs():
     from unified_planning.engines import CompilationKind as CK
@@ -45,7 +65,8 @@ def compiler_specs():
     def add(cid, make, knobs, traj=0.0, aux=0, prop_body=False, pipeline=False):
         k = dict(base)
         k.update(knobs)
-        S.append(dict(id=cid, make=make, knobs=k, traj=traj, aux=aux, prop_body=prop_body, pipeline=pipeline))
+        members = [cid] if not pipeline else MEMBERS[cid]
+        S.append(dict(id=cid, make=make, knobs=k, traj=traj, aux=aux, prop_body=prop_body, pipeline=pipeline, members=members))
 
     add("grounder", lambda: Grounder(), dict(static_rel=True), traj=0.3)
     add("conditional-effects-remover", lambda: ConditionalEffectsRemover(), dict(forall=False))
@@ -534,11 +555,13 @@ def case_term(c, depth=0, aux=0, n=0):
 
 
 def sound_term(c, depth):
-    return "sound_report %s" % case_term(c, depth=depth)
+    """first number: how many valid compiled plans of length <= depth exist (coverage); rest: SimCheck.report"""
+    return "(valid_count T%dc %s :: sound_report %s)" % (c.idx, gnat(depth), case_term(c, depth=depth))
 
 
 def complete_term(c, k, n):
-    return "complete_report %s" % case_term(c, aux=k, n=n)
+    """first number: how many valid original plans of length <= n exist (coverage); rest: SimCheck.report"""
+    return "(valid_count T%do %s :: complete_report %s)" % (c.idx, gnat(n), case_term(c, aux=k, n=n))
 
 
 # ---------------------------------------------------------------------------------------------- real validators (witness double-check)
@@ -572,6 +595,8 @@ def shape_tags(problem):
             else:
                 if conds and any(e.is_assignment() for e in es):
                     tags.add("conflicting-conditional-assignments")
+                if f.type.is_user_type() and len([e for e in es if e.is_assignment()]) > 1:
+                    tags.add("object-fluent-assigned-twice-in-one-action")
         for e in effs:
             if e.is_conditional() and (e.is_increase() or e.is_decrease()):
                 c = e.condition
@@ -580,3 +605,72 @@ def shape_tags(problem):
             if e.fluent.type.is_bool_type() and not e.value.is_bool_constant():
                 tags.add("fluent-valued-boolean-assignment")
     return sorted(tags)
+
+
+# ---------------------------------------------------------------------------------------------- case construction shared by C06/C07/C08
+def build_cases(ctx, per_compiler, max_insts, adversarial=0.0, only=None):
+    """corner corpus + `per_compiler` generated problems for every compiler spec; each compiled by the real compiler."""
+    rng = ctx.rng
+    cases = []
+    stats = {"generated": 0, "no_problem_in_kind": 0}
+    for spec in compiler_specs():
+        if only and spec["id"] not in only:
+            continue
+        for g in corpus(spec["id"]):
+            cases.append(Case(len(cases), spec, g).run(max(max_insts, 40)))
+        for _ in range(per_compiler):
+            gen = generate(rng, spec, adversarial_names=rng.random() < adversarial)
+            if gen is None:
+                stats["no_problem_in_kind"] += 1
+                continue
+            stats["generated"] += 1
+            cases.append(Case(len(cases), spec, gen).run(max_insts))
+    return cases, stats
+
+
+def case_json(c):
+    return {"compiler": c.spec["id"], "label": getattr(c.gen, "label", "generated"), "problem_text": str(c.problem),
+            "compiled_problem_text": None if c.comp is None else str(c.comp.problem)}
+
+
+def distribution(cases):
+    from collections import Counter
+    d = {"by_compiler": {}, "skipped": Counter(), "raised": Counter(), "orig_instances": Counter(), "compiled_instances": Counter(),
+         "with_trajectory_constraints": 0, "with_invariants": 0, "shape_tags": Counter(), "aux_instances": 0}
+    for c in cases:
+        bc = d["by_compiler"].setdefault(c.spec["id"], {"cases": 0, "live": 0})
+        bc["cases"] += 1
+        if c.skip:
+            d["skipped"][c.skip.split(":")[0]] += 1
+        if c.raised is not None:
+            d["raised"]["%s:%s" % (c.spec["id"], type(c.raised).__name__)] += 1
+        if c.live:
+            bc["live"] += 1
+            d["orig_instances"][min(len(c.orig.insts), 20)] += 1
+            d["compiled_instances"][min(len(c.comp.insts), 20)] += 1
+            d["with_trajectory_constraints"] += bool([t for t in c.orig.traj if not t.is_always()])
+            d["with_invariants"] += bool([t for t in c.orig.traj if t.is_always()])
+            d["aux_instances"] += sum(1 for b in c.back if b is None)
+            for t in shape_tags(c.problem):
+                d["shape_tags"][t] += 1
+    for k in ("skipped", "raised", "orig_instances", "compiled_instances", "shape_tags"):
+        d[k] = dict(d[k])
+    return d
+
+
+def mirrored_tags(c):
+    """negative-conditions-remover: a Boolean fluent that gets two different values in one action AND is mirrored by a
+    not_<name> fluent in the compiled problem (DESIGN.md 7 #35)"""
+    if c.comp is None:
+        return []
+    newf = [f.name for f in c.comp.problem.fluents if not c.problem.has_fluent(f.name)]
+    out = set()
+    for a in c.problem.actions:
+        byf = {}
+        for e in a.effects:
+            if e.fluent.type.is_bool_type():
+                byf.setdefault(e.fluent.fluent().name, set()).add(str(e.value))
+        for fn, vals in byf.items():
+            if len(vals) > 1 and any(n.startswith("not_" + fn) for n in newf):
+                out.add("delete-and-add-of-mirrored-fluent-in-one-action")
+    return sorted(out)
